@@ -84,7 +84,8 @@ def do_run(ids):
         shutil.rmtree(scr, ignore_errors=True)
         os.makedirs(scr)
         subprocess.run('git -C /repo archive HEAD | tar -x -C %s' % scr, shell=True, check=True)
-        for pd in (os.path.join(d, 'patch.diff'), os.path.join(d, 'patch.rebased.diff')):
+        # a change that was redone on the current code (after a repair rewrote the lines it edits) is tried first
+        for pd in (os.path.join(d, 'patch.rebased.diff'), os.path.join(d, 'patch.diff')):
             if not os.path.exists(pd):
                 continue
             a = subprocess.run(['git', 'apply', '--directory', scr, '--unsafe-paths', pd], capture_output=True, text=True, cwd='/')
